@@ -1439,15 +1439,22 @@ def stale_table_session(ctx):
         finally:
             e.kill()
     rep = "position startpos moves g1f3 g8f6 f3g1 f6g8 g1f3 g8f6 f3g1 f6g8 g1f3 g8f6 f3g1 f6g8"
-    a = run([])
-    b = run([rep, "isready"])
+    # a run in which the machine stalled may show no info line at all (the slice is 40 ms): that is
+    # nothing to compare, not a leak (false alarm of `vp check` #6, see DESIGN 0.3) — try again
+    for attempt in range(4):
+        a = run([])
+        b = run([rep, "isready"])
+        if a is None or b is None or min(len(a), len(b)) > 0:
+            break
     ctx.count("stale_table_sessions")
     ctx.case(("stale", 1), True)
     if a is None or b is None:
         ctx.fail("session-unanswered", traffic=rep)
         return
     n = min(len(a), len(b))
-    if a[:n] != b[:n] or n == 0:
+    if n == 0:
+        ctx.notes.append("stale-table session: no info lines within the slice in 4 attempts, nothing compared")
+    elif a[:n] != b[:n]:
         ctx.fail("earlier-position-command-leaks-into-search", fresh=a[:4], after_repetitions=b[:4])
 
 
